@@ -434,7 +434,7 @@ func init() {
 			{Entry: "VerifC11Driver", Params: map[string]int{"N": 2, "L": 2}, Covers: c11covers, DiffRuns: 60},
 			// OPS 793 = insert|clone|iter|commit|branch|get... : insert(1) delete(2) clone(8) branch(256): clones and kept versions that are written through later
 			{Entry: "VerifC11Driver", Params: map[string]int{"N": 4, "L": 1, "OPS": 1 | 2 | 8 | 256}, Covers: []string{"C11.branched", "C11.kept-version-compared", "C11.end"}, DiffRuns: 20},
-		}, append(fanRuns([]int{4, 5, 16, 17, 48, 49}, 1, nil), append(fanRuns([]int{5, 17, 49}, 1, map[string]int{"INNERLEAF": 1}), fanRuns([]int{2, 4}, 2, map[string]int{"INNERLEAF": 1, "KTAIL": 1, "QTAIL": 0})...)...)...),
+		}, append(fanRuns([]int{4, 5, 16, 17, 48, 49}, 1, nil), append(fanRuns([]int{5, 17, 49}, 1, map[string]int{"INNERLEAF": 1}), fanRuns([]int{2, 4}, 2, map[string]int{"INNERLEAF": 1, "KTAIL": 1, "QTAIL": 0, "CLONE": 0})...)...)...),
 		Thorough: append(append(append([]HarnessRun{
 			{Entry: "VerifC11Driver", Params: map[string]int{"N": 3, "L": 2}, Covers: c11covers, DiffRuns: 100},
 			{Entry: "VerifC11Driver", Params: map[string]int{"N": 4, "L": 1}, Covers: c11covers, DiffRuns: 100},
